@@ -128,12 +128,36 @@ BQueries(pl) == {<<pl[i][1] * 4 + dx, pl[i][2] * 4 + dy, 0>> : i \in 1..Len(pl),
                 \cup {<<(15 * pl[i][1] + pl[i + 1][1]) \div 4, (15 * pl[i][2] + pl[i + 1][2]) \div 4, 0>> : i \in 2..(Len(pl) - 1)}
 Cross2(a, b) == a[1] * b[2] - a[2] * b[1]
 HasCollinearTriple(pl) == \E i \in 1..(Len(pl) - 2) : Cross2(Vec(pl[i], pl[i + 1]), Vec(pl[i + 1], pl[i + 2])) = 0
+(* far query points: the whole lattice region and two units around it (up to a few segment lengths from the line).  Far from the
+   line two parts of a zig-zag can be almost equally close, and a part whose chord is farther than another one can still hold the
+   closest point.  For far points a missing foot is accepted (the foot may be outside the curve) and "noticeably closer" means
+   closer by more than half a percent of the distance (the search is accurate to a few hundredths of a percent there: next to
+   an end of the curve it reports the end although a point a little inside is 0.1 % closer). *)
+BFar(pl) == {<<4 * x, 4 * y, 0>> : x, y \in (-2)..(BN + 1)} \ BQueries(pl)
 BezierBehaviour(pl) ==
-  LET qs == SetToSeq(BQueries(pl)) IN
+  LET qs == SetToSeq(BQueries(pl))  fs == SetToSeq(BFar(pl)) IN
   [id |-> <<"bezier", pl>>, labels |-> <<"bezier", "n" \o ToString(Len(pl)), IF HasCollinearTriple(pl) THEN "exactly-collinear-coordinates" ELSE "no-collinear-triple">>,
    steps |-> <<[op |-> "bezier", samples |-> 400, points |-> [i \in 1..Len(pl) |-> <<pl[i][1] * 100 * Km, pl[i][2] * 100 * Km>>],
-                queries |-> [i \in 1..Len(qs) |-> <<qs[i][1] * 25 * Km, qs[i][2] * 25 * Km, qs[i][3]>>]]>>]
+                queries |-> [i \in 1..Len(qs) |-> <<qs[i][1] * 25 * Km, qs[i][2] * 25 * Km, qs[i][3]>>]],
+               [op |-> "bezier", samples |-> 400, nofoot_ok |-> TRUE, noticeable_rel |-> Dec(5, -3), points |-> [i \in 1..Len(pl) |-> <<pl[i][1] * 100 * Km, pl[i][2] * 100 * Km>>],
+                queries |-> [i \in 1..Len(fs) |-> <<fs[i][1] * 25 * Km, fs[i][2] * 25 * Km, fs[i][3]>>]]>>]
 EmitBezier == Len(pts) < 2 \/ PrintT(<<"B", ToJson(BezierBehaviour(pts))>>)
+
+(* Zig-zag trenches: n points, equal segment lengths, the direction alternating by +- bend / 2 about an orientation, so that
+   consecutive bends have opposite signs and the parts in between are S-shaped.  The coordinates are symbolic terms (the
+   harness evaluates the sines and cosines); the query points are every point of a 20 km grid within 300 km of the
+   coordinates' bounding box.  Far from the line an earlier and a later part can be almost equally close. *)
+ZigZag == [n : {4, 6}, bend : {20, 40, 60}, len : {100, 200, 300}, orient : {0, 35, 110}]
+RECURSIVE ZigPoint(_, _)
+ZigPoint(z, k) == IF k = 1 THEN <<0, 0>>
+                  ELSE LET p == ZigPoint(z, k - 1)
+                           a == Rad(z.orient + ((IF k % 2 = 0 THEN z.bend ELSE -z.bend) \div 2))
+                       IN <<Add(p[1], Mul(z.len * Km, Cos(a))), Add(p[2], Mul(z.len * Km, Sin(a)))>>
+ZigBehaviour(z) ==
+  [id |-> <<"bezier-zigzag", z>>, labels |-> <<"bezier", "zigzag", "n" \o ToString(z.n)>>,
+   steps |-> <<[op |-> "bezier", samples |-> 1000, nofoot_ok |-> TRUE, noticeable_rel |-> Dec(5, -3),
+                points |-> [k \in 1..z.n |-> ZigPoint(z, k)], grid |-> [margin |-> 300 * Km, step |-> 20 * Km]]>>]
+EmitZigZag == \A z \in ZigZag : PrintT(<<"B", ToJson(ZigBehaviour(z))>>)
 
 (*************************** round trip ************************************)
 RoundTrip ==
